@@ -171,6 +171,8 @@ class ObjRunner:
                         raise AnalysisError(f"object model: missing argument {p!r} for {f.key}")
                     env[p] = Interp(dict(self.module_env(f.module.rel))).ev(defaults[j])
             self.calls.append(f.key)
+            if f.cls is not None:
+                env["__defining_class__"] = f.cls.name
             # module-level constants of the callee's module: one object per runner, so state kept in them is shared between calls
             for k, v in self.module_env(f.module.rel).items():
                 env.setdefault(k, v)
@@ -198,7 +200,7 @@ class ObjRunner:
                 return NotImplemented
             if self.cinfo(node.id) is not None and any(c.module.rel == getattr(getattr(node, "_module", None), "rel", self.rel)
                                                          for c in self.prog.classes_by_name.get(node.id, [])):
-                return Obj({"__class__": node.id, "__is_class__": True})
+                return self.class_ref(node.id)
             if node.id in self._BUILTIN_TYPES:
                 return self._BUILTIN_TYPES[node.id]
             return NotImplemented
@@ -209,11 +211,25 @@ class ObjRunner:
             mod = self.prog.modules[target_rel]
             for st in mod.tree.body:
                 if isinstance(st, ast.ClassDef) and st.name == node.attr:
-                    return Obj({"__class__": node.attr, "__is_class__": True})
+                    return self.class_ref(node.attr, st)
                 if isinstance(st, ast.Assign) and isinstance(st.value, ast.Name) and any(isinstance(t, ast.Name) and t.id == node.attr for t in st.targets):
                     if self.cinfo(st.value.id) is not None:
-                        return Obj({"__class__": st.value.id, "__is_class__": True})  # DA = ADE
+                        return self.class_ref(st.value.id)  # DA = ADE
         return NotImplemented
+
+    def class_ref(self, name, node=None):
+        """Model of a class object: its name and the constants assigned in its body."""
+        from .core import try_fold
+        ref = Obj({"__class__": name, "__is_class__": True})
+        c = self.cinfo(name)
+        node = node or (c.node if c is not None else None)
+        if node is not None:
+            for st in node.body:
+                if isinstance(st, ast.Assign) and len(st.targets) == 1 and isinstance(st.targets[0], ast.Name):
+                    v = try_fold(st.value)
+                    if v is not None:
+                        ref.setdefault(st.targets[0].id, v)
+        return ref
 
     def loop(self, interp, st):
         seq = interp.ev(st.iter)
@@ -306,6 +322,14 @@ class ObjRunner:
                 return self.run_function(self.prog.funcs[f"{target_rel}::{call.func.attr}"], None, args, kw, plain=True)
             if target_rel is not None and f"{target_rel}::{call.func.attr}" in self.prog.classes:
                 return self.new(call.func.attr, *args, **kw)
+        if isinstance(call.func, ast.Attribute) and U(call.func.value) == "super()":
+            cur = self.cinfo(interp.env.get("__defining_class__", ""))
+            selfobj = interp.env.get("self")
+            if cur is not None and isinstance(selfobj, dict):
+                for c in self.prog.mro(cur)[1:]:
+                    if call.func.attr in c.methods:
+                        return self.run_function(c.methods[call.func.attr], selfobj, args, kw)
+            return None  # the base is outside the repository (object, sax.ContentHandler)
         if isinstance(call.func, ast.Attribute):
             recv = interp.ev(call.func.value)
             attr = call.func.attr
@@ -343,7 +367,7 @@ class ObjRunner:
                 f = self.find(recv["__class__"], attr)
                 if f is not None:
                     return self.run_function(f, recv, args, kw)
-            if U(call.func.value) in ("super()",) or U(call.func.value).endswith("ContentHandler"):
+            if U(call.func.value).endswith("ContentHandler"):
                 return None
         if isinstance(call.func, ast.Attribute) and isinstance(call.func.value, ast.Name) and call.func.value.id == "str" and "str" not in interp.env \
                 and hasattr(str, call.func.attr) and args and isinstance(args[0], str):
